@@ -29,6 +29,19 @@ TABLE = {
     "c11_merge_fold_not_wrapped.diff": ("contracts.c11", "_try_fold_wire_merge", None),
     "c16_iterator_leaks_into_outer.diff": ("contracts.c16", "lower_for_stmt", None),
     "c16_le.diff": ("contracts.c16", "get_iteration_values", None),
+    "c03_no_projection.diff": ("contracts.c03", "_lower_standard_write", None),
+    # seeded changes (written by sub-agents from the property text alone) that touch a function under contract
+    "../seeded/C11-1/patch.diff": ("contracts.c11", "_fold_arithmetic", None),
+    "../seeded/C11-2/patch_ported.diff": ("contracts.c11", "fold_binary_operation", None),
+    "../seeded/C10-2/patch_ported.diff": ("contracts.c10", "_make_key", None),
+    "../seeded/C06-4/patch.diff": ("contracts.c06", "_try_inline_comparison", None),
+    "../seeded/C05-3/patch.diff": ("contracts.c05", "_handle_latch_write_inlined", "rs_latch set <= reset >="),
+    "../seeded/C15-3/patch.diff": ("contracts.c15", "_resolve_constant_symbol", None),
+    "../seeded/C16-2/patch.diff": ("contracts.c15", "_resolve_constant_symbol", None),
+    "../seeded/C20-4/patch.diff": ("contracts.c15", "lower_identifier", None),
+    "../seeded/C20-3/patch.diff": ("contracts.c20", "create_output_anchors", None),
+    "../seeded/C09-1/patch.diff": ("contracts.c09", "_try_extract_const_value", None),
+    "../seeded/C01-4/patch.diff": ("contracts.c07", "_configure_decider", "operation = <"),
 }
 RUNNER = r'''
 import sys, importlib
